@@ -40,13 +40,15 @@ Definition reset (x : st) : st := {| rest := []; src := map (rebase (cur_loop x)
 (* xmp_stop_module: every later xmp_play_frame returns -XMP_END *)
 Definition stop_module (x : st) : st := {| rest := rest x; src := []; cur_loop := cur_loop x |}.
 
-Inductive op := Play (size loop : nat) | Reset | Stop.
+(* Restart = xmp_end_player; xmp_start_player: a fresh frame source; start_player makes the NULL-buffer call *)
+Inductive op := Play (size loop : nat) | Reset | Stop | Restart (fs : list frame).
 
 Definition step (x : st) (o : op) : res :=
   match o with
   | Play size loop => play_buffer loop x size
   | Reset => {| out := []; ret := 0%Z; st' := reset x |}
   | Stop => {| out := []; ret := 0%Z; st' := stop_module x |}
+  | Restart fs => {| out := []; ret := 0%Z; st' := {| rest := []; src := fs; cur_loop := 0 |} |}
   end.
 
 Fixpoint run_ops (x : st) (ops : list op) : list (Z * list Z * nat) :=
